@@ -277,11 +277,11 @@ def cover(ctx, g, init, exe, variant, hargs, keyfn, line, walks, pairs, env=None
 
 def msg_direction_a(ctx):
     q = ctx.tier == "quick"
-    plan = [("life", "MsgFmt_life_%s.cfg" % ctx.tier, 4, LIFE_OPS, (150, 25) if q else (1500, 40), 1500 if q else 60000),
+    plan = [("life", "MsgFmt_life_%s.cfg" % ctx.tier, 4, LIFE_OPS, (150, 25) if q else (500, 40), 1500 if q else 8000),
             ("unset", "MsgFmt_unset_%s.cfg" % ctx.tier, 4, ["unset_name", "set_level", "macro:moo", "macro:dp1", "macro:require", "macro:assert"],
-             (40, 20) if q else (400, 40), 500 if q else 20000),
-            ("out", "MsgFmt_out_%s.cfg" % ctx.tier, 4, OUT_OPS, (100, 25) if q else (1000, 40), 1000 if q else 40000),
-            ("out0", "MsgFmt_out0_%s.cfg" % ctx.tier, 0, OUT_OPS + ["unset_name", "set_name_null", "set_name_alias"], (60, 20) if q else (600, 40), 800 if q else 20000)]
+             (40, 20) if q else (200, 40), 500 if q else 3000),
+            ("out", "MsgFmt_out_%s.cfg" % ctx.tier, 4, OUT_OPS, (100, 25) if q else (400, 40), 1000 if q else 3000),
+            ("out0", "MsgFmt_out0_%s.cfg" % ctx.tier, 0, OUT_OPS + ["unset_name", "set_name_null", "set_name_alias"], (60, 20) if q else (300, 40), 800 if q else 3000)]
     for tag, cfg, d, need, walks, pairs in plan:
         g = msg_graph(ctx, cfg, d, need)
         exe, _ = msg_harness(ctx, d)
@@ -636,8 +636,8 @@ TMP_OPS = ["temp_file", "temp_file_zero", "remove", "set_env", "set_umask", "set
 
 def tmp_direction_a(ctx):
     q = ctx.tier == "quick"
-    for tag, cfg, d, walks, pairs in (("tmp", "TempFile_%s.cfg" % ctx.tier, 4, (80, 25) if q else (1500, 40), 1500 if q else 60000),
-                                      ("tmp0", "TempFile_d0_%s.cfg" % ctx.tier, 0, (30, 20) if q else (600, 40), 800 if q else 20000)):
+    for tag, cfg, d, walks, pairs in (("tmp", "TempFile_%s.cfg" % ctx.tier, 4, (80, 25) if q else (500, 40), 1500 if q else 8000),
+                                      ("tmp0", "TempFile_d0_%s.cfg" % ctx.tier, 0, (30, 20) if q else (300, 40), 800 if q else 3000)):
         g, res = tlc_graph(ctx, "MC_TempFile.tla", cfg)
         ops = {}
         for i in range(g.n_edges()):
@@ -826,6 +826,9 @@ def run(ctx):
     msg_direction_b(ctx)
     tmp_direction_a(ctx)
     tmp_direction_b(ctx)
+    if ctx.tier == "thorough":          # the same recorded families on the DEBUG=0 build
+        msg_direction_b(ctx, 0)
+        tmp_direction_b(ctx, 0)
     ctx.cov["exhaustive"] = True
     ctx.cov["rule"] = ("every transition TLC generates for MsgFmt / TempFile in the bounded scope is executed as the last step of a script "
                        "whose prefix consists of verified transitions (bytes written, return value, control, projected state compared "
@@ -838,6 +841,7 @@ def replay(ctx, path):
     d = json.load(open(path))
     rp = d.get("replay") or {}
     variant = rp.get("variant", "msg-D4")
-    m = re.match(r"msg-D(\d)", variant)
-    exe, _ = msg_harness(ctx, int(m.group(1)) if m else 4)
-    return objcheck.replay_file(exe, rp.get("harness_args", ["0"]), path, ctx.rundir)
+    m = re.match(r"(msg|tmp)-D(\d)", variant)
+    dbg = int(m.group(2)) if m else 4
+    exe = tmp_harness(ctx, dbg) if (m and m.group(1) == "tmp") else msg_harness(ctx, dbg)[0]
+    return objcheck.replay_file(exe, rp.get("harness_args", ["0"]), path, ctx.rundir, env={"VH_TOKEN_MAX": str(1 << 20)})
